@@ -11,7 +11,7 @@
    the same remote address) and [bounded t ops] (fewer than 2^24 destinations in
    the shard whenever an operation starts: the allocator's own debug_assert). *)
 From Coq Require Import List NArith ZArith Bool.
-From RB Require Import Base.Val Model.Rib Spec.RibSpec Proofs.RibC02 Proofs.RibC06.
+From RB Require Import Base.Val Model.Rib Spec.RibSpec Proofs.RibInv2 Proofs.RibC02 Proofs.RibC06 Proofs.RibC06b.
 Import ListNotations.
 Open Scope N_scope.
 
@@ -208,3 +208,60 @@ Check deferred_insert_reports_only_withdrawal :
                  /\ c_net c = net /\ c_paths c = [] /\ elig_of t net <> []
                  /\ elig_of (step_t t (Insert s net rpid nh a filt nhinv lim)) net = [].
 Print Assumptions deferred_insert_reports_only_withdrawal.
+
+(* The add-path consumer with a window of m paths holds exactly what
+   collect_loc_rib_paths_limited(m) returns. *)
+Theorem addpath_window_eq_limited :
+  forall shard ops m,
+    consistent ops ->
+    let t := run (empty_table shard) ops in
+    t_deferring t = false ->
+    forall net, snd (consume (addpath_apply (Some (N.to_nat m))) (empty_table shard) (fun _ => []) ops) net
+                = locrib_view_limited t m net.
+Proof. exact C06_addpath_window_eq_limited. Qed.
+Check addpath_window_eq_limited :
+  forall shard ops m,
+    consistent ops ->
+    let t := run (empty_table shard) ops in
+    t_deferring t = false ->
+    forall net, snd (consume (addpath_apply (Some (N.to_nat m))) (empty_table shard) (fun _ => []) ops) net
+                = locrib_view_limited t m net.
+Print Assumptions addpath_window_eq_limited.
+
+(* replaced_path_id of an insert names the path with the same (peer address, remote
+   path id) that was replaced; the new path takes over that local path id and no
+   other path of the prefix has it; None means the peer had no such path. *)
+Theorem replaced_path_id_sound :
+  forall shard ops s net rpid nh a filt nhinv lim c,
+    let t := run (empty_table shard) ops in
+    let o := Insert s net rpid nh a filt nhinv lim in
+    In c (step_cs t o) ->
+    match c_replaced c with
+    | Some p =>
+        (exists old, In old (entries_of t net) /\ ekey old = (s_addr s, rpid) /\ e_lpid old = p)
+        /\ (forall e, In e (entries_of (step_t t o) net) -> e_lpid e = p -> ekey e = (s_addr s, rpid))
+    | None =>
+        forall old, In old (entries_of t net) -> ekey old <> (s_addr s, rpid)
+    end.
+Proof. exact C06_replaced_path_id. Qed.
+Check replaced_path_id_sound :
+  forall shard ops s net rpid nh a filt nhinv lim c,
+    let t := run (empty_table shard) ops in
+    let o := Insert s net rpid nh a filt nhinv lim in
+    In c (step_cs t o) ->
+    match c_replaced c with
+    | Some p =>
+        (exists old, In old (entries_of t net) /\ ekey old = (s_addr s, rpid) /\ e_lpid old = p)
+        /\ (forall e, In e (entries_of (step_t t o) net) -> e_lpid e = p -> ekey e = (s_addr s, rpid))
+    | None =>
+        forall old, In old (entries_of t net) -> ekey old <> (s_addr s, rpid)
+    end.
+Print Assumptions replaced_path_id_sound.
+
+(* IdAllocator::alloc returns the lowest local id that is not in use. *)
+Theorem alloc_lowest_free :
+  forall used, ~ In (alloc_id used) used /\ forall j, j < alloc_id used -> In j used.
+Proof. exact C06_alloc_lowest_free. Qed.
+Check alloc_lowest_free :
+  forall used, ~ In (alloc_id used) used /\ forall j, j < alloc_id used -> In j used.
+Print Assumptions alloc_lowest_free.
